@@ -53,7 +53,7 @@ def main():
                                     'expected': ansatz(p, d, pth, nu, A, B, C), 'expected_x': (p - pth) * d ** nu})
     nplant = 4 if tier == 'quick' else 30
     dsets = [[5, 9, 13], [4, 6, 8], [3, 5, 7], [6, 10, 14], [9, 13, 17, 21], [4, 8, 12]]
-    for pi in range(nplant):
+    for pi in range(nplant + 1):
         pth = rng.choice([0.06, 0.08, 0.1, 0.12, 0.15])
         nu = rng.choice([0.8, 1.0, 1.2])
         A = rng.choice([0.3, 0.35, 0.4])
@@ -65,12 +65,18 @@ def main():
         lo = rng.choice([-1.0, -0.4, -0.6])      # symmetric and asymmetric windows around the threshold
         rates = [round(pth + width * (lo + (1.0 - lo) * i / (nr - 1)), 6) for i in range(nr)]
         n_trials = 8000
+        zero_point = pi == nplant
+        if zero_point:
+            # a data point with NO observed failure that still lies on the ansatz: the parabola touches zero (A = B^2/4C) at
+            # x = -B/2C, reached at the largest distance and the lowest rate
+            pth, nu, A, B, C, ds = 0.15, 0.5, 0.2, 2.0, 5.0, [4, 9, 16]
+            rates = [round(0.10 + 0.0125 * i, 6) for i in range(9)]
         entries = []
         ok = True
         for di, d in enumerate(ds):
             for p in rates:
                 f = ansatz(p, d, pth, nu, A, B, C)
-                if not (0.005 < f < 0.95):
+                if not (0.005 < f < 0.95) and not (zero_point and -1e-9 < f < 0.95):
                     ok = False
                 entries.append((make_inputs(d, p), f, [0.1, 0.35, 0.6, 0.2][di % 4]))
         if not ok:
